@@ -9,7 +9,7 @@ from ..common import interp, ours, LOD, norm, calls_in
 from ..absint import all_alias
 from ..cfg import cfg_of
 from ..facts import facts_at, cfg_node_of
-from ..model import AnalysisError, FunctionInfo
+from ..model import AnalysisError, FunctionInfo, body_nodes
 from .. import tables
 
 EXPLANATION = (
@@ -43,6 +43,7 @@ def check(ctx):
                       "another list; decorated set == statement's editors; statement's non-modifying methods write nothing")
     ctx.rule("EFF-2", "flag typestate (_obsolete set only by _mark_obsolete on every path + recursion; wrapper marks "
                       "receiver; warn-once)")
+    ctx.rule("EFF-state", "ListOfDicts methods assign only the bookkeeping attributes (no item-derived caches)")
     ctx.rule("EFF-3", "lists sharing item dicts are built by self._new (sole writer of _predecessor); deepcopy cuts")
     ctx.trust("operation table sa/tables.py; attd.AttributeDict copies (source read)")
     methods = [m for m in cls.methods.values()]
@@ -106,6 +107,39 @@ def check(ctx):
             raise AnalysisError(f"anchor vanished: ListOfDicts.{name} (listed as non-modifying by the statement)")
     ctx.count("yield sites", n_yields, 20)
 
+    # ------------------------------------------------------------ EFF-state
+    # A ListOfDicts keeps no item-derived state: its items are plain mutable dicts shared with other lists, so no cache
+    # stored on the list could ever be invalidated when an item is edited.  The only attributes its methods assign are
+    # the obsolescence flags, the predecessor link and the grouping keys.
+    ALLOWED_ATTRS = {"_obsolete", "_obsolete_warned", "_predecessor", "_group_keys"}
+    n_attr = 0
+    for m in cls.methods.values():
+        S0 = m.params[0] if m.params else None
+        for n in body_nodes(m.node):
+            tgt = None
+            if isinstance(n, ast.Attribute) and isinstance(n.ctx, ast.Store) and isinstance(n.value, ast.Name):
+                tgt = (n.value.id, n.attr)
+            elif isinstance(n, ast.Call) and isinstance(n.func, ast.Name) and n.func.id == "setattr" and len(n.args) >= 2 \
+                    and isinstance(n.args[0], ast.Name) and isinstance(n.args[1], ast.Constant):
+                tgt = (n.args[0].id, str(n.args[1].value))
+            if tgt is None:
+                continue
+            # only attributes of a ListOfDicts: the receiver, or a local built through its own class / _new
+            if tgt[0] != S0:
+                from ..dataflow import defs_reaching as _dr
+                ds = _dr(m, tgt[0], n)
+                if not (ds and all(d.value is not None and isinstance(d.value, ast.Call) and isinstance(d.value.func, ast.Attribute)
+                                   and isinstance(d.value.func.value, ast.Name) and d.value.func.value.id == S0
+                                   and d.value.func.attr in ("__class__", "_new", "copy", "deepcopy") for d in ds)):
+                    continue
+            n_attr += 1
+            ok = tgt[1] in ALLOWED_ATTRS
+            ctx.ob("EFF-state", m, f"{tgt[0]}.{tgt[1]} assigned in {m.name}", n, ok,
+                   "one of the list's own bookkeeping attributes" if ok else
+                   f"{m.qualname} stores {tgt[1]!r} on the list: state derived from the items cannot be kept valid -- items are shared "
+                   f"mutable dicts and list mutators (append, item assignment, in-place edits of an item) do not pass through any hook -- so "
+                   f"later calls (keys(), write_csv, ...) work from stale data", clause="methods never change ... / same item sequence as the list")
+    ctx.count("attribute stores in ListOfDicts methods", n_attr, 5)
     # ---------------------------------------------------------------- EFF-2
     flag_writes = {"._obsolete": [], "._obsolete_warned": [], "._predecessor": []}
     for f in repo.functions.values():
